@@ -10,7 +10,7 @@ ID = "C03"
 TOL = 2000  # us: "only events within about 2 ms of an edge may go either way"
 RULE = (
     "case = backend x base instant (boundary-biased) x 1..10 events (offset 0..100 s on a ms grid, duration from {0, 1 us, 999 us, 1 ms, 24 h} + uniform <= 50 s, "
-    "so nesting/overlap/adjacency are the norm) x 1..5 windows (start None | any us in [-5 s, 105 s]; length None | 0 | sub-ms | any; given at a random UTC offset) x "
+    "so nesting/overlap/adjacency are the norm) x 1..5 windows (start None | any us in [-5 s, 105 s] | near any event edge incl. the end of a 24 h event; length None | 0 | sub-ms | any; given at a random UTC offset) x "
     "limits from {-7,-1,0,1,2,3,100}. Oracle with the stored intervals known exactly from the generator and TOL = 2 ms: MUST (reaches into the window by more than "
     "TOL) subset-of returned subset-of MUST+MAY, no duplicates, timestamps non-increasing, each returned event == the stored event or the stored event cut to the "
     "window (edges within TOL, id/data untouched); limit n>0 -> min(n,|full|) entries whose timestamps are the first n of the unlimited read and which are a "
@@ -20,7 +20,7 @@ RULE = (
 ASSUMPTIONS = [
     "edge tolerance 2 ms and the 24 h maximum event length are taken from the property",
     "clipping is accepted on any backend (the property only constrains what a clipped event may look like)",
-    "windows lie within [-5 s, +105 s] of the base instant; at most 10 events per bucket",
+    "windows start within [-5 s, +105 s] of the base instant or near an edge of a stored event (including the far end of hour- and day-long events); at most 10 events per bucket",
 ]
 DAY = gen.DAY_US
 INF = 10**30
@@ -37,16 +37,23 @@ def strategy(draw, tier="quick"):
     evs = []
     for _ in range(n):
         off_ms = draw(st.one_of(st.integers(0, 20), st.integers(0, 100_000)))
-        dur = draw(st.one_of(st.sampled_from([0, 1, 999, 1000, 1001, 2000, DAY, 10**6, 5 * 10**6]), st.integers(0, 50 * 10**6), st.integers(0, 50_000).map(lambda m: m * 1000)))
+        dur = draw(
+            st.one_of(
+                st.sampled_from([0, 1, 999, 1000, 1001, 2000, DAY, 10**6, 5 * 10**6, DAY - 1000, 20 * 3600 * 10**6, 3600 * 10**6]),
+                st.integers(0, 50 * 10**6),
+                st.integers(0, 50_000).map(lambda m: m * 1000),
+                st.integers(0, 24 * 3600).map(lambda sec: sec * 10**6),
+            )
+        )
         evs.append({"off_ms": off_ms, "dur_us": dur})
     wins = []
-    edges = sorted({e["off_ms"] * 1000 for e in evs} | {e["off_ms"] * 1000 + e["dur_us"] for e in evs if e["dur_us"] < 200 * 10**6})
+    edges = sorted({e["off_ms"] * 1000 for e in evs} | {e["off_ms"] * 1000 + e["dur_us"] for e in evs})  # incl. the far ends of hour- and day-long events
     for _ in range(draw(st.integers(1, 5))):
         smode = draw(st.integers(0, 4))
         if smode == 0:
             s = None
         elif smode == 1:
-            s = draw(st.sampled_from(edges)) + draw(st.sampled_from([-3000, -2001, -1000, -1, 0, 1, 999, 1000, 2001, 3000, 500_000]))
+            s = draw(st.sampled_from(edges)) + draw(st.sampled_from([-3000, -2001, -1000, -1, 0, 1, 999, 1000, 2001, 3000, 500_000, -60 * 10**6, -3600 * 10**6]))
         else:
             s = draw(st.integers(-5 * 10**6, 105 * 10**6))
         lmode = draw(st.integers(0, 5))
